@@ -293,6 +293,16 @@ def run(ctx):
         if not ok and (b.nid, nm.split('::')[-1]) in E_EXEMPT:
             r3.exempted(b.nid, E_EXEMPT[(b.nid, nm.split('::')[-1])])
             continue
+        # the raise test of the user-call path (R06.4) looks at its argument vector through references: an inspection of a
+        # *borrowed* result inside eval_func_with_values, its closures or a private helper of it drops nothing (what the
+        # test then does with the error it found is decided by R06.4)
+        aty = (t.get('argtys') or [''])[0]
+        borrowed = aty.startswith('&') or aty.startswith('std::result::Result<&')
+        EFV_ = 'runtime_scope::RuntimeScope::eval_func_with_values'
+        if not ok and borrowed and nm.split('::')[-1] in ('is_err', 'is_ok', 'err', 'ok', 'is_err_and', 'is_ok_and') \
+                and mirq.private_helper_of(mir, b, {EFV_}):
+            r3.exempted(b.nid, 'inspection of a borrowed argument by the raise test of the user-call path (R06.4)')
+            continue
         if not ok:
             r3.fail('%s/%s' % (b.nid, nm.split('::')[-1]), mirq.site(b, bb), '%s applied to an error-carrying Result outside the documented handlers' % nm)
     # all candidate drops are instances too
